@@ -165,11 +165,24 @@ class PhaseMonitor:
         out_kw = kwargs.get("out")
         if out_kw is not None:
             # out= / in-place operators: judged when the single target is a Phase (the returned object must be that target)
-            if not (isinstance(out_kw, tuple) and len(out_kw) == 1 and isinstance(out_kw[0], Phase)) or name in ("floor_divide", "divmod"):
-                return
-            if exc is None and res is not NotImplemented and res is not out_kw[0]:
-                ctx.violation("phase_" + name, "out= target was not returned", None, {"what": "out_identity", "op": name})
-                return
+            if name in ("floor_divide", "divmod"):
+                # quotient into a caller-provided plain array (and, for divmod, the remainder into a Phase or nothing)
+                want_n = 1 if name == "floor_divide" else 2
+                if not (isinstance(out_kw, tuple) and len(out_kw) == want_n and isinstance(out_kw[0], np.ndarray)
+                        and not isinstance(out_kw[0], u.Quantity)):
+                    return
+                if exc is None and res is not NotImplemented:
+                    got0 = res if name == "floor_divide" else (res[0] if isinstance(res, tuple) else None)
+                    if got0 is not out_kw[0]:
+                        ctx.violation("phase_" + name, "the quotient's out= array was not the object returned", None,
+                                      {"what": "out_identity", "op": name})
+                        return
+            else:
+                if not (isinstance(out_kw, tuple) and len(out_kw) == 1 and isinstance(out_kw[0], Phase)):
+                    return
+                if exc is None and res is not NotImplemented and res is not out_kw[0]:
+                    ctx.violation("phase_" + name, "out= target was not returned", None, {"what": "out_identity", "op": name})
+                    return
         ctx.count("ufunc_events")
         o = "phase_" + name
         kinds = tuple(type(i).__name__ for i in inputs)
@@ -289,8 +302,8 @@ class PhaseMonitor:
         o = "phase_new"
         p1 = args[1] if len(args) > 1 else kwargs.get("phase1")
         p2 = args[2] if len(args) > 2 else kwargs.get("phase2")
-        if isinstance(p1, (str, bytes)) or isinstance(p2, (str, bytes)):
-            return
+        if isinstance(p1, (str, bytes, tuple)) or isinstance(p2, (str, bytes, tuple)):
+            return      # strings are C15's; tuples keep astropy's Angle semantics ((d, m, s), refused in this astropy)
         a = operand_value(p1, True)
         b = operand_value(p2, True) if p2 is not None else ([F(0)], (), None, F(0))
         if a is None or b is None:
@@ -316,7 +329,7 @@ class PhaseMonitor:
 # ------------------------------------------------------------------------------------------------
 COUNT_DECADES = [0, 1, 3, 6, 9, 12, 15, "2^52"]
 FRAC_KINDS = ["uniform", "half", "quarter", "tiny", "unnorm", "zero"]
-OPERANDS = ["int", "float", "np64", "np32", "npint", "arr0", "arrn", "q_cycle", "q_one", "phase", "q_percent", "q_deg", "arrb"]
+OPERANDS = ["int", "float", "np64", "np32", "npint", "arr0", "arrn", "q_cycle", "q_one", "phase", "q_percent", "q_deg", "arrb", "list", "tuple"]
 
 
 def rand_count(rng, dec):
@@ -371,6 +384,12 @@ def make_operand(rng, kind, shape, small=True):
         return np.array(mag)
     if kind == "arrn":
         return rng.uniform(-5, 5, size=shape if shape else (3,)) + 6
+    if kind in ("list", "tuple"):
+        # a plain Python sequence of numbers is array-like too
+        v = [float(x) for x in (rng.uniform(-5, 5, size=(int(np.prod(shape)) if shape else 2)) + 6)]
+        if shape and len(shape) > 1:
+            v = np.asarray(v).reshape(shape).tolist()
+        return v if kind == "list" else (tuple(map(tuple, v)) if shape and len(shape) > 1 else tuple(v))
     if kind == "arrb":
         # an array that broadcasts the phase to a larger shape: a column against a row, a vector against a length-1 / scalar phase
         shp = {(): (4,), (1,): (4,), (3,): (2, 1), (2, 2): (3, 1, 1)}.get(tuple(shape), (2,) + (1,) * len(shape))
@@ -410,11 +429,13 @@ def wl_arith(ctx, idx, rng):
            "abs": lambda: abs(p), "pos": lambda: +p, "radd": lambda: x + p, "rsub": lambda: x - p, "rmul": lambda: x * p}
     # which combinations are in the property's domain
     cyc = ok_ in ("q_cycle", "q_deg", "phase")
-    dimless = ok_ in ("int", "float", "np64", "np32", "npint", "arr0", "arrn", "arrb", "q_one", "q_percent") or isinstance(x, complex)
+    dimless = ok_ in ("int", "float", "np64", "np32", "npint", "arr0", "arrn", "arrb", "list", "tuple", "q_one", "q_percent") or isinstance(x, complex)
     if opname in ("add", "sub", "radd", "rsub"):
-        valid = (cyc or ok_ in ("int", "float", "np64", "np32", "npint", "arr0", "arrn", "arrb")) and not isinstance(x, complex)
+        valid = (cyc or ok_ in ("int", "float", "np64", "np32", "npint", "arr0", "arrn", "arrb", "list", "tuple")) and not isinstance(x, complex)
         if imaginary and not isinstance(x, Phase):
             valid = False
+        if ok_ == "tuple":
+            valid = False       # astropy's Angle refuses tuples (historic (d, m, s) meaning): either outcome is accepted for + and -
         if isinstance(x, Phase) and bool(x.imaginary) != imaginary:
             valid = False
     elif opname in ("mul", "rmul"):
@@ -581,8 +602,19 @@ def wl_near_multiple(ctx, idx, rng):
         f = np.array([eps, 0.25, 0.5][:n]) if n > 1 else np.array(eps)
         p = Phase(c, f)
     d = float(gen.pick(rng, [1.0, 1.0, 0.5, 2.0])) * u.cycle
-    which = ["floordiv", "mod", "divmod"][idx % 3]
-    fns = {"floordiv": lambda: p // d, "mod": lambda: p % d, "divmod": lambda: divmod(p, d)}
+    which = ["floordiv", "mod", "divmod", "floordiv_out", "divmod_out"][idx % 5]
+    shp_ = np.shape(p)
+
+    def fd_out():
+        q_ = np.full(shp_, -7.0)
+        return np.floor_divide(p, d, out=q_)
+
+    def dm_out():
+        q_ = np.full(shp_, -7.0)
+        with probes.quiet():
+            r_ = Phase(np.zeros(shp_), np.zeros(shp_))
+        return np.divmod(p, d, out=(q_, r_))
+    fns = {"floordiv": lambda: p // d, "mod": lambda: p % d, "divmod": lambda: divmod(p, d), "floordiv_out": fd_out, "divmod_out": dm_out}
     ctx.describe_case({"k": k, "eps": eps, "n": n, "d": str(d), "op": which})
     res, exc = ctx.call("phase_divmod", fns[which], where=f"{which} near multiple")
     if exc is None:
@@ -634,7 +666,7 @@ def workloads(ctx):
     base = len(COUNT_DECADES) * len(FRAC_KINDS) * len(OPERANDS)
     return [("R", 1, wl_R), ("arith", base * (12 if q else 80), wl_arith), ("new", 480 * (3 if q else 20), wl_new),
             ("inplace", 378 * (3 if q else 20), wl_inplace),
-            ("divmod", 2400 if q else 20000, wl_divmod), ("near_multiple", 600 if q else 3000, wl_near_multiple),
+            ("divmod", 2400 if q else 20000, wl_divmod), ("near_multiple", 1000 if q else 5000, wl_near_multiple),
             ("trig", 480 if q else 3200, wl_trig)]
 
 
